@@ -26,7 +26,7 @@ func runC02(c *Ctx) {
 	c.R.Rule = "C02 jpegll: images with 1 or 3 components, P in 2..16, samples < 2^P in the 8-bit / 16-bit LE container; " +
 		"every case is run through lossless.Encode with predictor 0..7 and lossless14sv1.Encode and decoded back; " +
 		"contents: noise, 0/2^P-1 alternation, ramps, constant, smooth walk, extreme-value mix, difference -32768 (P=16), " +
-		"Fibonacci category counts (17-deep code before limiting); sizes random up to 64 (quick) / 512 (thorough), w=1, h=1, " +
+		"Fibonacci category counts (17-deep code before limiting), skewed-categories (P=13..16: categories 0..P with Fibonacci counts decreasing with the category, so the rare high categories get 11..16-bit codes at varying bit phases); sizes random up to 64 (quick) / 512 (thorough), w=1, h=1, " +
 		"65535x1 and 1x65535 (thorough); small geometries 1x1..3x3 with one component at P=2: every image when there are " +
 		"at most 256 of them, else a regular sample of 256/384 images in quick; thorough: every image of every geometry " +
 		"with at most 300000 images (all of 1x1..3x3 at P=2, w*h<=6 at P=3, 1x1..2x1 with 3 components at P<=3), a " +
@@ -99,6 +99,17 @@ func genC02(c *Ctx) []c02case {
 	add(&Img{W: 2, H: 2, C: 1, P: 15, S: []int{0, 32767, 32767, 0}, Kind: "alt"})
 	for i := 0; i < c.N(2, 6); i++ {
 		add(fibImage(rng))
+	}
+	// skewed-categories: rare high categories with the longest codes (see skewedImage)
+	for r := 0; r < c.N(1, 4); r++ {
+		for p := 13; p <= 16; p++ {
+			add(skewedImage(rng, p, 1, 1))
+			add(skewedImage(rng, p, 1, 1))
+			add(skewedImage(rng, p, 3, 1))
+			if p <= 14 {
+				add(skewedImage(rng, p, 1, 3))
+			}
+		}
 	}
 	if c.Thor {
 		for _, g := range [][2]int{{65535, 1}, {1, 65535}} {
